@@ -1,6 +1,6 @@
 (* C01 - write then read returns the same field: executable model of the CORE FRAGMENT of
    NetCDFWrite._write_field_or_domain / NetCDFRead._create_field_or_domain (cfdm 1.11.2.0 with
-   C01-fix-1, -3, -4 applied; the superseded code is kept as ..._old, see Refuted.v).
+   C01-fix-1, -3, -4 and C01-fix3-3 applied; the superseded code is kept as ..._old, see Refuted.v).
 
    Fragment: one field construct; domain axes (size, netCDF dimension name, unlimited flag);
    data over a list of axes; per axis at most one dimension coordinate, written as a coordinate
@@ -164,9 +164,18 @@ Fixpoint nat_assoc {A} (k : nat) (l : list (nat * A)) : option A :=
 Fixpoint role_dim (sz : Z) (l : list (string * Z)) : option string :=
   match l with [] => None | (n, s) :: r => if Z.eqb s sz then Some n else role_dim sz r end.
 
-(* _netcdf_name(base, dimsize, role): an existing dimension of that role and size is reused *)
-Definition alloc_role_dim (bounds_role : bool) (base : string) (sz : Z) (w : wstate) : string * bool * wstate :=
-  match role_dim sz (if bounds_role then w_bdims w else w_sdims w) with
+(* C01-fix3-3: a name that has been SET (named = Some base) only reuses a dimension of that very name;
+   a default name reuses any dimension of the role and size (role_lookup None = role_dim). *)
+Definition role_lookup (named : option string) (sz : Z) (l : list (string * Z)) : option string :=
+  match named with
+  | None => role_dim sz l
+  | Some b => role_dim sz (filter (fun p => String.eqb (fst p) b) l)
+  end.
+
+(* _netcdf_name(base, dimsize, role, named): an existing dimension of that role and size is reused *)
+Definition alloc_role_dim (bounds_role : bool) (named : option string) (base : string) (sz : Z) (w : wstate)
+  : string * bool * wstate :=
+  match role_lookup named sz (if bounds_role then w_bdims w else w_sdims w) with
   | Some n => (n, false, w)
   | None =>
     let '(n, w1) := alloc base w in
@@ -195,7 +204,22 @@ Definition write_bounds (b : option bnds) (cdims : list string) (cvar : string) 
   match b with
   | None => ([], w)
   | Some b =>
-    let '(bdim, fresh, w1) := alloc_role_dim true (opt_or (b_ncdim b) ("bounds" +++ z_str (b_n b))) (b_n b) w in
+    let '(bdim, fresh, w1) := alloc_role_dim true (b_ncdim b) (opt_or (b_ncdim b) ("bounds" +++ z_str (b_n b))) (b_n b) w in
+    let newdim := negb (mem bdim (map fst (w_dims w1))) in
+    let w2 := if newdim then add_dim bdim (b_n b) false w1 else w1 in
+    let default := if newdim then cvar +++ "_bounds" else "bounds" in
+    let '(bvar, w3) := alloc (opt_or (b_ncvar b) default) w2 in
+    ([("bounds", bvar)], add_var {| v_name := bvar; v_dims := cdims ++ [bdim]; v_attrs := [] |} w3)
+  end.
+
+(* the superseded _write_bounds (before C01-fix3-3): any bounds dimension of the same size was reused, also when
+   a different netCDF dimension name had been set on the bounds *)
+Definition write_bounds_old (b : option bnds) (cdims : list string) (cvar : string) (w : wstate)
+  : list (string * string) * wstate :=
+  match b with
+  | None => ([], w)
+  | Some b =>
+    let '(bdim, fresh, w1) := alloc_role_dim true None (opt_or (b_ncdim b) ("bounds" +++ z_str (b_n b))) (b_n b) w in
     let newdim := negb (mem bdim (map fst (w_dims w1))) in
     let w2 := if newdim then add_dim bdim (b_n b) false w1 else w1 in
     let default := if newdim then cvar +++ "_bounds" else "bounds" in
@@ -208,7 +232,7 @@ Definition with_strlen (sl : option Z) (dims : list string) (w : wstate) : list 
   match sl with
   | None => (dims, w)
   | Some n =>
-    let '(sdim, fresh, w1) := alloc_role_dim false ("strlen" +++ z_str n) n w in
+    let '(sdim, fresh, w1) := alloc_role_dim false None ("strlen" +++ z_str n) n w in
     let w2 := if mem sdim (map fst (w_dims w1)) then w1 else add_dim sdim n false w1 in
     (dims ++ [sdim], w2)
   end.
